@@ -102,6 +102,8 @@ theorem evalG_render (env : String → Val) (d : Dialect) :
   | .inlist _ _ _, hc => by simp [Core] at hc
   | .inrows _ _ _, hc => by simp [Core] at hc
   | .tuple_ _, hc => by simp [Core] at hc
+  | .litcol _ _, hc => by simp [Core] at hc
+  | .ilikeOperand _, hc => by simp [Core] at hc
   | .absent, hc => by simp [Core] at hc
 
 theorem evalG_renderList (env : String → Val) (d : Dialect) :
@@ -246,6 +248,8 @@ theorem flattened_eval (env : String → Val) (op : Op) : ∀ l : SaExpr, operat
   | .inlist _ _ _, _, hc => by simp [Core] at hc
   | .inrows _ _ _, _, hc => by simp [Core] at hc
   | .tuple_ _, _, hc => by simp [Core] at hc
+  | .litcol _ _, _, hc => by simp [Core] at hc
+  | .ilikeOperand _, _, hc => by simp [Core] at hc
   | .absent, _, hc => by simp [Core] at hc
 
 theorem evalCoreList_ne_nil (env : String → Val) : ∀ cs : List SaExpr, cs ≠ [] → evalCoreList env cs ≠ []
@@ -403,6 +407,8 @@ theorem negate_eval (env : String → Val) (e : SaExpr) (h : BoolE e) (hs : negS
   | inlist _ _ _ => simp [boolShape] at hsh
   | inrows _ _ _ => simp [boolShape] at hsh
   | tuple_ _ => simp [boolShape] at hsh
+  | litcol _ _ => simp [boolShape] at hsh
+  | ilikeOperand _ => simp [boolShape] at hsh
   | absent => simp [boolShape] at hsh
 
 end SaVerif.Expr
@@ -616,6 +622,9 @@ theorem build_num_eval (env : String → Val) : ∀ (u : U) (e : SaExpr), NumU u
   | .subq _ _, _, hu, _ => by simp [NumU] at hu
   | .inOp _ _ _, _, hu, _ => by simp [NumU] at hu
   | .tupleIn _ _ _, _, hu, _ => by simp [NumU] at hu
+  | .pi _, _, hu, _ => by simp [NumU] at hu
+  | .ps _, _, hu, _ => by simp [NumU] at hu
+  | .strop _ _ _ _, _, hu, _ => by simp [NumU] at hu
   | .absent, _, hu, _ => by simp [NumU] at hu
 
 mutual
@@ -696,6 +705,7 @@ theorem build_bool_eval (env : String → Val) : ∀ (u : U) (e : SaExpr), BoolU
     | none => simp [ha] at hb
     | some x =>
       have nx := build_num a x hna ha
+      have hpl : isPyLit a = false := by cases a <;> first | rfl | (simp [NumU] at hna)
       have ex := build_num_eval env a x hna ha
       cases hb' : build b with
       | none => simp [ha, hb'] at hb
@@ -706,7 +716,7 @@ theorem build_bool_eval (env : String → Val) : ∀ (u : U) (e : SaExpr), BoolU
           simp only [build, Option.some.injEq] at hb'
           subst hb'
           have hpr : pyReflected x SaExpr.null = false := by cases x <;> simp [pyReflected]
-          simp only [hpr, Bool.false_eq_true, if_false] at hb
+          simp only [hpr, hpl, Bool.or_false, Bool.false_eq_true, if_false] at hb
           have hb2 : booleanCompare x k.op .null (negateOp k.op) none = some e := by
             cases hr : k.reflected with
             | none => simpa [hr] using hb
@@ -746,7 +756,7 @@ theorem build_bool_eval (env : String → Val) : ∀ (u : U) (e : SaExpr), BoolU
           have ny := build_num b y hnb hb'
           have ey := build_num_eval env b y hnb hb'
           have hpr := pyReflected_num x y ny
-          simp only [hpr, Bool.false_eq_true, if_false] at hb
+          simp only [hpr, hpl, Bool.or_false, Bool.false_eq_true, if_false] at hb
           have hb2 : booleanCompare x k.op y (negateOp k.op) none = some e := by
             cases hr : k.reflected with
             | none => simpa [hr] using hb
@@ -824,6 +834,9 @@ theorem build_bool_eval (env : String → Val) : ∀ (u : U) (e : SaExpr), BoolU
   | .subq _ _, _, hu, _, _ => by simp [BoolU] at hu
   | .inOp _ _ _, _, hu, _, _ => by simp [BoolU] at hu
   | .tupleIn _ _ _, _, hu, _, _ => by simp [BoolU] at hu
+  | .pi _, _, hu, _, _ => by simp [BoolU] at hu
+  | .ps _, _, hu, _, _ => by simp [BoolU] at hu
+  | .strop _ _ _ _, _, hu, _, _ => by simp [BoolU] at hu
   | .absent, _, hu, _, _ => by simp [BoolU] at hu
 
 theorem build_boolList_eval (env : String → Val) : ∀ (us : List U) (es : List SaExpr),
